@@ -198,6 +198,7 @@ func genC11(repo, out string) {
 		die("%v", err)
 	}
 	genC11Read(repo, out)
+	genC11Create(repo, out) // get-or-create of the segstore table: pause points in segwriter.go (c11c.go)
 }
 
 // ---------------------------------------------------------------- read side (check-then-look-up windows)
